@@ -62,8 +62,11 @@ def main():
         # run the checks on the patched tree
         det = {}
         man = json.load(open("/verif/MANIFEST.json"))
+        only = os.environ.get("INTAKE_CHECKS")  # "owning": only the check of the property the change is written against
         for c in man["checks"]:
             pid = c["property_id"]
+            if only == "owning" and pid != prop:
+                continue
             rcc, oc = sh(f"{PY} -m xoverif.check {pid} --no-evidence --root {scratch}", cwd="/verif", timeout=600)
             fails = [l for l in oc.splitlines() if l.startswith("FAIL")]
             errs = [l for l in oc.splitlines() if l.startswith("ANALYSIS-ERROR")]
